@@ -9,6 +9,7 @@ Specification:
                      not idealised: SkipTargetInsideCode, ZeroLengthOutside, VectorNotChecked.
   spec/Isa4004.tla, spec/Isa6800.tla   the ISA tables (shared with C14)
   spec/Dasm_MC.tla   (M) exhaustive over all small images;  spec/Dasm_Gen.tla, spec/Dasm_Cover.tla  (G) image generators
+  spec/Dasm87_Gen.tla  87C800 displacement / distance fields and their limit classes (no instruction table)
 
 (M) TLC, all images of 3 (thorough: 4) cells with representative bytes, 1..2 entry addresses incl. the address behind
     the image, 6800 with an optional vector: termination (liveness `<>Done` and a step bound), InsideImage, marked code
@@ -34,13 +35,28 @@ Specification:
     text, the cause is classified from the failing line and (diagnosis only) repaired so that the remaining checks
     still run; every cause is a separate finding key.
     SPEC-DRIFT only: listed areas = areas marked by the Dasm model (deco68 stops behind clv/sev/txs/lds/sts ext).
-87C800: no TLA+ table.  Images are assembled from the golden tests/t_87c800 source (whole program and 12-instruction
-    slices, entry = first address); round trip + disjoint/inside checks, NO reachability oracle; an image whose
-    branches leave the image is outside the property's domain and not judged.
+87C800: no TLA+ instruction table.  (a) Images are assembled from the golden tests/t_87c800 source (whole program and
+    12-instruction slices, entry = first address); round trip + disjoint/inside checks, NO reachability oracle; an
+    image whose branches leave the image is outside the property's domain and not judged.
+    (b) FIELD-LIMIT images (operand field limits on the disassembler side; the golden source has no -128): spec/
+    Dasm87_Gen.tla describes the three operand fields with a signed displacement / PC-relative distance that the
+    golden source exercises - "(HL+d)" behind the memory prefix E4/F4 (signed 8 bit), "JR [cc,]a" (signed 8 bit from
+    the address behind the instruction), "JRS T/F,a" (signed 5 bit in the opcode) - with the IsaCommon field
+    machinery; TLC checks that every class is encodable and that the declarative decoder (SignExt) inverts the
+    field bits, and prints the classes {min, min+1, -1, 0, 1, max-1, max} (+ -2, -3 for the branches; JR -1 = target
+    inside the instruction itself is excluded as not a valid stream), the spelling offset of a PC-relative operand
+    and the field bits.  The harness takes EVERY statement template with such a field from the golden source (28
+    (hl+d) statements incl. jp/call (hl+d) and the bit forms, 12 jr cc + jr, jrs t/f; the 87C800 has no (IX+d) /
+    (SP+d) forms), substitutes the displacement, places branches between enough `nop`s that the target lies in the
+    image, assembles with the real asl (origin 200h, `ret` behind) and checks that the image carries TLC's field bits
+    at the field position (else SPEC-DRIFT: the image would not exercise the limit).  These 318 images are round-
+    tripped via -binfile and -hexfile exactly as the slices; as all their branches stay inside the image by
+    construction, an undefined label is a rejected disassembly (never "out of domain"), and the label printed for
+    jr / jrs must be the target TLC's offset defines.  (HL+0) is assembled as (HL) (no field; round trip only).
 
 quick: 2 x 2 x 150 simulated traces + 44 coverage images + 328 page-edge images + 31 golden 87C800 images (20 of
-them slices relocated to origins F0..100h and 7FF7h); thorough: 2 x 4 x 5000 traces and
-4-cell exhaustive models.
+them slices relocated to origins F0..100h and 7FF7h) + 318 87C800 field-limit images; thorough: 2 x 4 x 5000 traces and
+4-cell exhaustive models.  Measured (VERIF_JOBS=6, machine shared): quick 63 s (TLC pool 43 s, 567 + 31 + 318 images 16 s).
 
 NOT covered: CPU name 6802 (dasl knows it, asl does not); -symbol; LSB vectors; images with several chunks; forced
 extended addressing of page-0 operands on the 6800; vectors on the 4004 (dasl prints `dw`, unknown to that target);
@@ -60,6 +76,10 @@ Mutations tried on a scratch copy containing the proposed fixes (`VERIF_REPO=...
   (rejected); deco4004.c ROM page of the ISZ target from Address+1 instead of Address+2 (only wrong at offset xFE: 10
   page-edge images rejected, quick tier) and the same for JCN; code68.c TAB opcode 16 -> 17 (assembler side: bytes differ; fails 1 ctest); deco68.c extended operand
   byte order (undefined label).
+  deco87c800.c (HL+d) prefix E4/F4: sign extension `Dist & 0x80` -> `Dist > 0x80` (only d = -128 printed as (hl+128); MISSED
+  by the golden slices, which contain no -128) -> 28 field-limit images rejected ("range overflow"), quick tier, 66 s;
+  deco87c800.c jr cc: `Dist & 0x80` -> `Dist > 0x80` (12 images: wrong target label + undefined symbol) and jrs t:
+  `Dist & 0x10` -> `Dist > 0x10` (1 image, d = -16), quick tier.
 """
 import os
 import re
@@ -126,7 +146,9 @@ class Collector:
 
 def judge_image(rep, bld, im, dcpu, aslcpu, oracle=True):
     """im: dict printed by Dasm_Gen (or built from a golden image with oracle=False).
-    rep: anything with .violation(what, case=, files=, key=).  Returns the drift text or None."""
+    rep: anything with .violation(what, case=, files=, key=).  Returns the drift text or None.
+    im["closed"]: every branch of the image is known to stay inside it (generated field-limit images): a label
+    outside the image is then a wrong disassembly, not a reason to leave the image unjudged."""
     org, data = im["org"], bytes(im["bytes"])
     ents = sorted(im["entries"])
     vecs = [(v[0], "vec%d" % i) for i, v in enumerate(sorted(im.get("vecs", [])), 1)]
@@ -165,7 +187,7 @@ def judge_image(rep, bld, im, dcpu, aslcpu, oracle=True):
     if code & dat:
         rep.violation("%s: listed code and data areas overlap at %s" % (im["isa"], dasm.intervals(code & dat)),
                       case=im, files=files, key=(dict(base, kind="overlap")))
-    if not oracle:
+    if not oracle and not im.get("closed"):
         # golden-source images: a branch/call that leaves the image puts the image outside the property's domain
         # ("branches and calls into the image"): its label can never be defined.  Not judged further.
         defined = set(m.group(1).lower() for m in re.finditer(r"(?m)^((?:lab|sub)_[0-9A-Fa-f]+):", rb.out))
@@ -283,12 +305,88 @@ def golden_87c800(bld):
     return out
 
 
+ORG87 = 0x200
+
+
+def limit_images_87c800(bld, cases):
+    """Field-limit images: every statement template of the golden t_87c800 source that has a signed displacement
+    ((hl+d) behind the memory prefix) or a PC-relative distance (jr / jrs) x every displacement class printed by TLC
+    (spec/Dasm87_Gen.tla).  One image per (template, class): the statement (branches: inside enough `nop`s that the
+    target lies in the image) + `ret`, assembled by the real asl.  Returns (images, notes); notes = images whose
+    field position does not carry the bits TLC computed (assembler side, reported as drift)."""
+    t = [x for x in aslrun.corpus() if x[0] == "t_87c800"]
+    if not t:
+        return [], ["golden test t_87c800 not found"]
+    src = open(t[0][2], encoding="latin-1").read().splitlines()
+    body = [l for l in src if l.strip() and not l.strip().startswith(";")]
+    head = [l for l in body if l.split()[0].lower() in ("cpu", "page", "include")]
+    templ = {"hld": [], "jr": [], "jrs": []}
+    for l in body:
+        code = l.split(";")[0]
+        m = re.search(r"\(hl[+-]\d+\)", code, re.I)
+        if m:
+            templ["hld"].append((code[:m.start()].lstrip() + "(hl@D@)" + code[m.end():].rstrip(), None))
+            continue
+        m = re.match(r"^(?:\w+:)?\s*(jrs?)\s+(?:(\w+)\s*,\s*)?\w+\s*$", code, re.I)
+        if m:
+            templ[m.group(1).lower()].append(("%s %s" % (m.group(1), (m.group(2) + ",") if m.group(2) else ""), m.group(2)))
+    for k in templ:
+        templ[k] = sorted(set(templ[k]))
+    jobs, metas = [], []
+    for c in cases:
+        for (tp, cc) in templ[c["kind"]]:
+            if c["kind"] == "hld":
+                stmt, nb, na = tp.replace("@D@", "%+d" % c["d"]), 0, 0
+            else:
+                off = c["off"]
+                stmt = tp + ("$" if off == 0 else "$%+d" % off)
+                nb, na = max(0, -off) + 3, max(0, off) + 3
+            lines = head + ["\torg\t%d" % ORG87] + ["\tnop"] * nb + ["\t" + stmt] + ["\tnop"] * na + ["\tret"]
+            jobs.append({"sources": {"a.asm": "\n".join(lines) + "\n"}, "opts": ["-q", "-i", aslrun.INCLUDE]})
+            metas.append((c, stmt, nb))
+    try:
+        results = aslrun.assemble_many(bld, jobs)
+    except FileNotFoundError:
+        build.get(bld.flavour)
+        results = aslrun.assemble_many(bld, jobs)
+    images, notes = [], []
+    for (c, stmt, nb), res in zip(metas, results):
+        name = "limit %s d=%d: %s" % (c["kind"], c["d"], stmt)
+        recs = [x for x in res.parsed().data_records() if x.seg == 1] if (res.rc == 0 and res.p is not None) else []
+        if not recs:
+            notes.append("%s: asl rejects the in-range statement (%s)" % (name, (res.out + res.err).strip()[-120:]))
+            continue
+        lo = min(x.start for x in recs)
+        hi = max(x.start + len(x.data) for x in recs)
+        mem = bytearray(hi - lo)
+        for x in recs:
+            mem[x.start - lo:x.start - lo + len(x.data)] = x.data
+        a = ORG87 + nb
+        im = {"isa": "87C800", "cpu": "87C00", "org": lo, "bytes": list(mem), "entries": [lo], "vecs": [],
+              "name": name, "closed": True, "field": c}
+        # the image carries the bits TLC computed at the field position (else it does not exercise the limit)
+        i = a - lo
+        if c["kind"] == "hld":
+            ok = c["fieldless"] or (mem[i] in (0xE4, 0xF4) and mem[i + 1] == c["bits"])
+        elif c["kind"] == "jr":
+            ok = mem[i + 1] == c["bits"]
+            im["targets"] = [(a, a + c["off"])]
+        else:
+            ok = mem[i] % 32 == c["bits"]
+            im["targets"] = [(a, a + c["off"])]
+        if not ok:
+            notes.append("%s: image bytes %s do not carry the field bits %d" % (name, list(mem[i:i + 3]), c["bits"]))
+        images.append(im)
+    return images, notes
+
+
 def main(tier):
     rep = Report(PID, tier)
     bld = build.get("hook")
     quick = tier == "quick"
     rep.assumptions += ["ISA tables Isa4004 / Isa6800 are the reference for lengths and successors; 87C800 has no table: "
-                        "round trip and disjoint/inside checks only, no reachability oracle",
+                        "round trip and disjoint/inside checks only, no reachability oracle; its displacement fields "
+                        "(Dasm87_Gen) are exercised only through the statement templates of the golden source",
                         "dasl output is prefixed with `cpu <name>` only; images are single-chunk, loaded by -binfile and -hexfile",
                         "renderers, hex writer and byte comparison (Python) are trusted; images, entries and predicted areas are TLC's"]
     # (M) ---------------------------------------------------------------------------------------------
@@ -307,13 +405,16 @@ def main(tier):
             g = t[1]
             return tlc.run("Dasm_Gen", g[1], workers=2 if quick else 4, simulate=n, depth=g[2], deadlock=True,
                            timeout=2400, mem="6g", tags=("BEH",))
+        if t[0] == "f87":
+            return tlc.run("Dasm87_Gen", "Dasm87_Gen.cfg", workers=1, timeout=600, mem="1g", tags=("OUT",))
         return tlc.run("Dasm_Cover", t[1][1], workers=1, deadlock=True, timeout=900, mem="4g", tags=("BEH", "BAD"))
-    tasks = [("mc", c) for c in cfgs] + [("gen", g) for g in gens] + [("cov", c) for c in covs]
+    tasks = [("mc", c) for c in cfgs] + [("gen", g) for g in gens] + [("cov", c) for c in covs] + [("f87", None)]
     with Phase("TLC: %d Dasm_MC configurations, %d generators" % (len(cfgs), len(gens) + len(covs))):
         allruns = pmap(tlc_task, tasks, workers=min(5, NCPU))
     runs = allruns[:len(cfgs)]
     sims = allruns[len(cfgs):len(cfgs) + len(gens)]
-    covruns = allruns[len(cfgs) + len(gens):]
+    covruns = allruns[len(cfgs) + len(gens):len(cfgs) + len(gens) + len(covs)]
+    f87run = allruns[-1]
     for c, r in zip(cfgs, runs):
         tlc.must(r, "Dasm_MC(%s)" % c)
         if r.violation:
@@ -419,12 +520,43 @@ def main(tier):
             rep.evaluated()
         rep.traces(len(g87))
         rep.part("87C800", images=len(g87), not_judged_branch_leaves_image=skipped, oracle="round trip only")
+    with Phase("87C800 field-limit images"):
+        tlc.must(f87run, "Dasm87_Gen")
+        if f87run.violation:
+            raise CheckError("Dasm87_Gen violates its own invariants: %s" % f87run.violation[:600])
+        rep.model("Dasm87_Gen", f87run)
+        cases87 = [c for (t, c) in f87run.printed if t == "OUT"]
+        lim, notes = limit_images_87c800(bld, cases87)
+        if not cases87 or not lim:
+            raise CheckError("no 87C800 field-limit images were generated (%d cases)" % len(cases87))
+
+        def one87(im):
+            for attempt in (0, 1):
+                c = Collector()
+                try:
+                    return c, judge_image(c, bld, im, "87C00", "87C00", oracle=False)
+                except FileNotFoundError:
+                    if attempt:
+                        raise
+                    build.get(bld.flavour)
+        for im, (c, d) in zip(lim, pmap(one87, lim)):
+            c.flush(rep)
+            rep.evaluated()
+            rep.distinct(("87C800", im["name"]), True)
+        rep.traces(len(lim))
+        if notes:
+            rep.drift("87C800 field-limit images: %d notes, first: %s" % (len(notes), notes[0]))
+        rep.part("87C800 field limits", cases=len(cases87), images=len(lim), notes=len(notes),
+                 kinds={k: len([i for i in lim if i["field"]["kind"] == k]) for k in ("hld", "jr", "jrs")},
+                 classes="{min, min+1, -1, 0, 1, max-1, max} (+ -2, -3 for branches; jr -1 = inside itself excluded)")
+        rep.sample({"isa": "87C800", "image": lim[0]["name"], "org": lim[0]["org"], "bytes": lim[0]["bytes"]})
     for g in sorted(GROUPS):
         log("[C15] mismatch group %s: %d images" % (dict(g), GROUPS[g]))
     return rep.finish(
         rule="images = valid instruction streams drawn by TLC -simulate from Dasm_Gen (%d traces per ISA x worker; "
              "10-12 items; all forms of Isa4004/Isa6800 weighted by category; operands from limit/pattern/random pools; "
-             "1..4 entries; 6800: vectors) + golden t_87c800 whole/slices; distinct = distinct (org, bytes, entries); "
+             "1..4 entries; 6800: vectors) + golden t_87c800 whole/slices + every golden 87C800 statement template with a "
+             "displacement / distance field x the field-limit classes of Dasm87_Gen; distinct = distinct (org, bytes, entries); "
              "non-trivial = more than one code byte reachable" % n, exhaustive=False)
 
 
